@@ -245,6 +245,7 @@ func (h *Harness) runFree() {
 	select {
 	case <-allDone:
 		h.end = endDone
+		h.async.Wait()
 	case <-time.After(limit):
 		h.end = endDeadlock
 	}
